@@ -99,6 +99,7 @@ func (nz *Normaliser) Normalise(fset *token.FileSet, fd *ast.FuncDecl, spec Func
 	stripMessages(d.Body)
 	d.Body.List = dropLogs(d.Body.List)
 	d.Body.List = switchToIf(d.Body.List)
+	simplifyConds(d.Body) // before orienting: `!(a == b)` is a comparison, not a negation
 	for i := 0; i < 8; i++ {
 		d.Body.List = flatten(d.Body.List)
 	}
@@ -529,7 +530,39 @@ func leaves(list []ast.Stmt) bool {
 	return false
 }
 
+// positive orientation: `if !x { return A }; return B` is `if x { return B }; return A` (both branches plain returns)
+func orient(list []ast.Stmt) []ast.Stmt {
+	n := len(list)
+	if n < 2 {
+		return list
+	}
+	is, ok := list[n-2].(*ast.IfStmt)
+	if !ok || is.Else != nil || is.Init != nil || len(is.Body.List) != 1 {
+		return list
+	}
+	u, ok := is.Cond.(*ast.UnaryExpr)
+	if !ok || u.Op != token.NOT {
+		return list
+	}
+	r1, ok1 := is.Body.List[0].(*ast.ReturnStmt)
+	r2, ok2 := list[n-1].(*ast.ReturnStmt)
+	if !ok1 || !ok2 {
+		return list
+	}
+	inner := u.X
+	if p, ok := inner.(*ast.ParenExpr); ok {
+		inner = p.X
+	}
+	out := append([]ast.Stmt(nil), list[:n-2]...)
+	return append(out, &ast.IfStmt{Cond: inner, Body: &ast.BlockStmt{List: []ast.Stmt{r2}}}, r1)
+}
+
 func flatten(list []ast.Stmt) []ast.Stmt {
+	list = flatten0(list)
+	return orient(list)
+}
+
+func flatten0(list []ast.Stmt) []ast.Stmt {
 	var out []ast.Stmt
 	for _, s := range list {
 		forBlocks(s, func(b *ast.BlockStmt) { b.List = flatten(b.List) })
